@@ -60,17 +60,18 @@ pub fn run(ctx: &Ctx) -> Outcome {
                                 let log = toy::log_take();
                                 ensure!(out == want, "keystream_wrong/belt", "{} {} offset {} length {} ({}): {} want {} (first diff at byte {:?})", d.ty, ivn, off, len, k.s(), short(&out), short(&want), first_diff(&out, &want));
                                 if cfg.is_toy() {
-                                    // E(IV) once, then E(s_0 + i + 1) for exactly the blocks touched, in order
+                                    // E(s_0 + i + 1) for the blocks touched, in order; when and how often E(IV) itself is computed (at
+                                    // construction, lazily, again in iv_state()) is left to the implementation
                                     let b0 = (off / 16) as u128;
                                     let b1 = if len > 0 { (off + len).div_ceil(16) as u128 } else if off % 16 != 0 { b0 + 1 } else { b0 };
-                                    let mut expect = vec![iv.clone()];
+                                    let mut expect: Vec<Vec<u8>> = vec![];
                                     let mut b = b0;
                                     while b < b1 {
                                         expect.push(rf::belt_counter_block(&c, iv, b));
                                         b += 1;
                                     }
                                     // expected blocks in order among what the cipher received (extra calls tolerated)
-                                    let got: Vec<Vec<u8>> = log.iter().filter(|l| l.dir == b'E').map(|l| l.input.clone()).collect();
+                                    let got: Vec<Vec<u8>> = log.iter().filter(|l| l.dir == b'E' && l.input != *iv).map(|l| l.input.clone()).collect();
                                     ensure!(match_subsequence(&got, &expect).is_ok(), "counter_block_wrong/belt", "{} {} offset {} length {}: blocks fed to E are [{}] want [{}]", d.ty, ivn, off, len, got.iter().map(|b| short(b)).collect::<Vec<_>>().join(" "), expect.iter().map(|b| short(b)).collect::<Vec<_>>().join(" "));
                                 }
                                 // encryption and decryption are the same operation: applying the keystream again restores the input
